@@ -35,6 +35,9 @@ fn main() {
         eprintln!("usage: routerlab <C01|C02|C08|C09|C10|C11|C16> <quick|thorough|replay> [file]");
         std::process::exit(2);
     }
+    if args[1] == "--deep-backlog-child" {
+        deep_backlog_child(&args[2], args.get(3).and_then(|s| s.parse().ok()).unwrap_or(20_000));
+    }
     vcommon::report::panics::install_quiet_hook();
     tokio_stream::verif_seam::set(Some(world::seam));
     let id = args[1].clone();
@@ -51,6 +54,58 @@ fn main() {
     if r.is_err() {
         let (m, l) = vcommon::report::panics::take_last().unwrap_or_default();
         machinery_failure(&format!("engine panicked outside a guarded execution: {m} at {l}"));
+    }
+}
+
+/// `routerlab --deep-backlog-child <pubsub|reqrep> <n>`: n peers are waiting in the registration
+/// channel (what a topic that was stalled for a while finds when it comes back); the router is
+/// polled once on a thread with the 2 MiB stack of a runtime worker. A step whose stack depth grows
+/// with the backlog kills this process; the parent reads that off the exit status.
+fn deep_backlog_child(which: &str, n: usize) -> ! {
+    use futures::{SinkExt, StreamExt};
+    use selium_protocol::Frame;
+    use selium_std::errors::SeliumError;
+    use std::future::Future;
+    let drain = || -> std::pin::Pin<Box<dyn futures::Sink<Frame, Error = SeliumError> + Send>> { Box::pin(futures::sink::drain::<Frame>().sink_map_err(|e| match e {})) };
+    let fut: std::pin::Pin<Box<dyn Future<Output = ()> + Send>> = if which == "reqrep" {
+        let (fut, tx) = selium_server::topic::reqrep::Topic::<SeliumError>::pair();
+        for _ in 0..n {
+            let st = futures::stream::pending::<Result<Frame, SeliumError>>().boxed();
+            tx.clone().try_send(selium_server::topic::reqrep::Socket::Client((drain(), st))).expect("hand-over on a fresh sender");
+        }
+        std::mem::forget(tx);
+        Box::pin(fut)
+    } else {
+        let (fut, tx) = selium_server::topic::pubsub::Topic::<Frame, SeliumError>::pair();
+        for _ in 0..n {
+            tx.clone().try_send(selium_server::topic::pubsub::Socket::Sink(drain())).expect("hand-over on a fresh sender");
+        }
+        std::mem::forget(tx);
+        Box::pin(fut)
+    };
+    let h = std::thread::Builder::new()
+        .stack_size(2 << 20)
+        .spawn(move || {
+            let waker = futures::task::noop_waker();
+            let mut cx = std::task::Context::from_waker(&waker);
+            let mut fut = fut;
+            let _ = fut.as_mut().poll(&mut cx);
+            std::mem::forget(fut);
+        })
+        .expect("thread");
+    let ok = h.join().is_ok();
+    println!("DEEP-BACKLOG-{}", if ok { "OK" } else { "PANICKED" });
+    std::process::exit(if ok { 0 } else { 3 });
+}
+
+/// runs the child; Some(description) when the router did not survive the backlog
+fn deep_backlog(which: &str, n: usize) -> Option<String> {
+    let exe = std::env::current_exe().ok()?;
+    let out = std::process::Command::new(exe).args(["--deep-backlog-child", which, &n.to_string()]).stdin(std::process::Stdio::null()).stderr(std::process::Stdio::null()).output();
+    match out {
+        Ok(o) if o.status.success() && String::from_utf8_lossy(&o.stdout).contains("DEEP-BACKLOG-OK") => None,
+        Ok(o) => Some(format!("{:?}; stdout {:?}", o.status, String::from_utf8_lossy(&o.stdout).trim())),
+        Err(e) => machinery_failure(&format!("cannot run the deep-backlog child: {e}")),
     }
 }
 
@@ -177,6 +232,27 @@ fn check(id: &str, tier: &str) {
             });
         }
     }
+    // C09 only: one step with a very long registration backlog (the work is bounded by the data
+    // available, but its stack depth must not grow with it: a runtime worker has 2 MiB)
+    let mut backlog = json!(null);
+    if id == "C09" {
+        let n = if tier == "thorough" { 200_000 } else { 30_000 };
+        for which in ["pubsub", "reqrep"] {
+            if let Some(what) = deep_backlog(which, n) {
+                rep.violation(Violation {
+                    property: id.to_string(),
+                    clause: format!("{which}:step-dies-on-a-long-registration-backlog"),
+                    fingerprint: format!("{id}:{which}:step-dies-on-a-long-registration-backlog"),
+                    message: format!("{n} peers were waiting in the {which} router's registration channel (a topic that was stalled for a while); polling the router once on a thread with a 2 MiB stack killed the process: {what}"),
+                    case: json!({"family": "deep-backlog", "router": which, "queued_registrations": n}),
+                    choices: vec![],
+                    deviations: 0,
+                    trace: vec![],
+                });
+            }
+        }
+        backlog = json!({"queued_registrations": n, "routers": ["pubsub", "reqrep"], "stack_bytes": 2 << 20});
+    }
     // samples: the default execution and one deviating execution of the first and the last family
     let mut samples: Vec<Value> = Vec::new();
     for sp in [specs.first(), specs.last()].into_iter().flatten() {
@@ -205,6 +281,7 @@ fn check(id: &str, tier: &str) {
         "abandoned_spin_or_panic": abandoned,
         "families_with_single_outcome": single_outcome,
         "samples": samples,
+        "deep_registration_backlog": backlog,
         "explanation": if abandoned > 0 { "some executions were abandoned because a router poll exceeded the step budget or panicked; they yield no delivery verdict (reduced coverage)" } else { "no execution was abandoned" },
     });
     rep.assume("mock sinks/streams obey the futures Sink/Stream contracts; a blocked mock wakes the stored waker when the environment unblocks it");
@@ -216,6 +293,21 @@ fn check(id: &str, tier: &str) {
 fn replay(id: &str, path: &str) {
     let s = std::fs::read_to_string(path).unwrap_or_else(|e| machinery_failure(&format!("cannot read {path}: {e}")));
     let v: Violation = serde_json::from_str(&s).unwrap_or_else(|e| machinery_failure(&format!("cannot parse {path}: {e}")));
+    if v.case["family"] == "deep-backlog" {
+        let which = v.case["router"].as_str().unwrap_or("pubsub").to_string();
+        let n = v.case["queued_registrations"].as_u64().unwrap_or(30_000) as usize;
+        println!("replaying {} clause={}: {n} peers queued for the {which} router, one poll on a 2 MiB stack", v.property, v.clause);
+        match deep_backlog(&which, n) {
+            None => {
+                println!("now: the router survives the backlog");
+                std::process::exit(0);
+            }
+            Some(what) => {
+                println!("now: VIOLATION reproduced: {} — the process died: {what}", v.clause);
+                std::process::exit(1);
+            }
+        }
+    }
     let scn = families::from_case(&v.case).unwrap_or_else(|| machinery_failure("replay file does not describe a routerlab scenario"));
     println!("replaying {} clause={} scenario={}", v.property, v.clause, scn.name());
     let mut c = Chooser::from_indices(&v.choices);
